@@ -38,6 +38,9 @@ STALE = [
     ("ul-init-exp", bytes([0x43]) + OTHER + b"\x09\x09\x09\x09"),
     ("dl-init", bytes([0x60]) + OTHER + bytes(4)),
     ("ul-init-exp-sub", bytes([0x43]) + MUX[:2] + b"\x01" + b"\x09\x09\x09\x09"),     # same index, other sub-index
+    # the late answer of an earlier transfer on the SAME object: only the client's flush before it sends can tell
+    ("ul-init-exp-same", bytes([0x43]) + MUX + b"\x09\x09\x09\x09"),
+    ("dl-init-same", bytes([0x60]) + MUX + bytes(4)),
     ("dl-init-sub", bytes([0x60]) + MUX[:2] + b"\x01" + bytes(4)),
     ("ul-seg-t0", bytes([0x00]) + b"\x09" * 7),
     ("ul-seg-t1", bytes([0x10]) + b"\x09" * 7),
@@ -74,6 +77,11 @@ def cases(tier, seed):
                 for mode in ("inline", "deferred"):
                     d = D if n < 100 else 1
                     out.append({"server": server, "kind": kind, "n": n, "mode": mode, "D": d, "seed": seed})
+    # a client that pauses before every request (PAUSE_BEFORE_SEND): stale frames arrive during the pause
+    for server, kinds in (("real", KINDS_REAL), ("ref", KINDS_REF)):
+        for kind in kinds:
+            n = 2 if kind.startswith("exp") else 15
+            out.append({"server": server, "kind": kind, "n": n, "mode": "inline", "D": 1, "seed": seed, "pause": 0.05})
     # several lost responses in one transfer (e.g. a lost segment and its lost retransmission): loss-only alphabet
     for server, kinds in (("real", KINDS_REAL), ("ref", KINDS_REF)):
         for kind in kinds:
@@ -156,6 +164,8 @@ class Link:
 
     def _plausible(self, stale, req=None, real=None):
         """Would the client be unable, by protocol, to tell this stale frame from the expected one?"""
+        if stale[0] >> 5 in (2, 3) and stale[1:4] == MUX:
+            return True              # an initiate response for the object under transfer, once the request is out
         if real is not None:
             if self._in_block_upload_segments():
                 return (stale[0] & 0x7F) == (real[0] & 0x7F)
@@ -322,7 +332,20 @@ def one_execution(case, ch):
         link.ref.style = "exp_s"
     # stale frame already waiting before the transfer starts
     k = 0 if case.get("loss_only") else ch.choose(1 + len(STALE), "start:stale-before-request")
-    if k:
+    if case.get("pause"):
+        link.remote.sdo.PAUSE_BEFORE_SEND = case["pause"]      # a client configured to pause before every request
+    if k and case.get("pause"):
+        # the stale frame arrives while the client pauses before its first request
+        link.deviations.append(("start", "stale-during-pause:" + STALE[k - 1][0]))
+        fired = []
+
+        def during_pause():
+            if not fired:
+                fired.append(1)
+                link._to_client(STALE[k - 1][1])
+                link.pump()
+        simenv.W.idle_hooks.append(during_pause)
+    elif k:
         link.deviations.append(("start", "stale-before-request:" + STALE[k - 1][0]))
         link._to_client(STALE[k - 1][1])
         link.pump()
